@@ -397,6 +397,13 @@ def judge_distribution(ctx, case, name, out, wit, mech=None, want=None):
     want = case["dist"] if want is None else want
     try:
         got, total, over, cut = _explored(case, out, "dist")
+    except IndexError as e:
+        # a condition that names a record index, run before that record exists (ClassicalDataStore.get_int): the same
+        # "control moved in front of its measurement" as the ValueError below
+        if not any(fr.name == "get_int" for fr in traceback.extract_tb(e.__traceback__)):
+            raise
+        ctx.check(False, "distribution-preserved", mech or "C06:control-before-measurement:" + name, "IndexError in get_int: %s" % e, output=repr(out)[:3000], **wit)
+        return False
     except ValueError as e:
         if "Circuit has no measurements to sample" in str(e) and want:
             ctx.check(False, "distribution-preserved", mech or "C06:distribution-changed:" + name,
@@ -429,6 +436,11 @@ def judge_state(ctx, case, name, out, wit, mech=None, want=None, dm=False):
     want = case["rho"] if want is None else want
     try:
         rho, over, cut = _explored(case, out, "rho-dm" if dm else "rho")
+    except IndexError as e:
+        if not any(fr.name == "get_int" for fr in traceback.extract_tb(e.__traceback__)):
+            raise
+        ctx.check(False, "average-state-preserved", mech or "C06:control-before-measurement:" + name, "IndexError in get_int: %s" % e, output=repr(out)[:3000], **wit)
+        return False
     except ValueError as e:
         if "already logged to key" in str(e):
             # the simulators refuse the produced circuit: a key carries both/two channel-style and measurement-style records
@@ -1238,7 +1250,7 @@ def _satisfies(case, out):
         rho, over2, cut2 = _explored(case, out, "rho")
         return (not over and not over2 and L.tv_distance(got, case["dist"]) <= 1e-6 + cut and rho is not None
                 and L.maxdiff(rho, case["rho"]) <= TOL + cut2)
-    except (LW.LowerError, ValueError):
+    except (LW.LowerError, ValueError, IndexError):  # (IndexError: a condition run before the record its index names)
         return False
 
 
@@ -1596,7 +1608,7 @@ def _satisfies_rel(case, out, rel):
             return True
         rho, over2, cut2 = _explored(case, out, "rho")
         return not over2 and rho is not None and L.maxdiff(rho, case["rho"]) <= TOL + cut2
-    except ValueError:
+    except (ValueError, IndexError):
         return False
 
 
